@@ -95,6 +95,9 @@ func main() {
 		os.Exit(3)
 	}
 	f(&c)
+	if n := gen.NestedRecords(); n > 0 {
+		c.R.Add("records_issued_from_inside_a_value_being_formatted", int64(n))
+	}
 	c.R.Done()
 }
 
